@@ -10,7 +10,7 @@ import c16
 PROP = 'C17'
 THEOREMS = ['C17_accepted_record_well_formed', 'C17_derived_json_strict', 'C17_examples']
 TYPES = c16.TYPES + ['two-shapes', 'opt-shape']
-RULE = ('corpus of 41 types: field types (scalars, Option / Vec / HashMap nestings, nested structs and enums, recursion '
+RULE = ('corpus of 43 types: field types (scalars, Option / Vec / HashMap nestings, nested structs and enums, recursion '
         'through Box / Option / Vec, generics) x attributes (rename, rename_all, rename_all_fields with a variant override, skip_serializing_if with avro defaults, namespace, alias, doc, skip, default) x enum shapes '
         '(unit-only, data-carrying) x generated values. non-trivial = distinct (type, value) pairs that round-trip')
 KNOWN = {'two-shapes': 'data-enum-used-twice-redefined', 'opt-shape': 'option-of-data-enum-panics'}
